@@ -23,7 +23,8 @@ esac
         -DBUILD_TESTING=OFF > "$B/cmake.log" 2>&1 || { cat "$B/cmake.log" >&2; exit 2; }
   ninja -C "$B/lib" nixio > "$B/ninja.log" 2>&1 || { tail -40 "$B/ninja.log" >&2; exit 2; }
   if [ "$FLAVOUR" = asan ]; then
-    nm -D "$B/lib/libnixio.so" | grep -q __asan_report || { echo "asan library is not instrumented" >&2; exit 2; }
+    # (grep -c reads all of nm's output: grep -q would close the pipe early and nm's SIGPIPE fails the pipeline under pipefail)
+    [ "$(nm -D "$B/lib/libnixio.so" | grep -c __asan_report)" -gt 0 ] || { echo "asan library is not instrumented" >&2; exit 2; }
   fi
   if [ $# -gt 0 ]; then
     TARGETS=""
